@@ -33,9 +33,9 @@ BUDGET = {
     'thorough': dict(examples=2000, time_s=3300, shrink=True, shrink_cap_s=240),
 }
 
-SAMPLE_KINDS = ['ok_mef', 'ok_rfi', 'ok_one', 'ok_float', 'ok_float2', 'missing', 'small', 'gf_neg', 'gf_big', 'gf_just_above', 'gf_just_below', 'bad_units', 'beads_failed',
-                'no_curve', 'other_instrument', 'other_amp', 'other_volt']
-HEALTHY = ('ok_mef', 'ok_rfi', 'ok_one', 'ok_float', 'ok_float2')
+SAMPLE_KINDS = ['ok_mef', 'ok_mef_wide', 'ok_rfi', 'ok_one', 'ok_float', 'ok_float2', 'missing', 'small', 'gf_neg', 'gf_big', 'gf_just_above', 'gf_just_below', 'bad_units', 'beads_failed',
+                'no_curve', 'other_instrument', 'other_amp', 'other_volt', 'other_volt0']
+HEALTHY = ('ok_mef', 'ok_mef_wide', 'ok_rfi', 'ok_one', 'ok_float', 'ok_float2')
 BEAD_KINDS = ['ok', 'missing', 'small', 'gf_neg', 'gf_big', 'unequal_mef']
 
 _FIX = {}
@@ -58,6 +58,8 @@ def fixture(seed):
         'cells_f2.fcs': dict(kind='cells', instrument='I1', seed=4 * seed + 41, n=610, datatype='F'),   # bit 1 clear: non-positive FL2 values -> a warning note
         'cells_small.fcs': dict(kind='cells', instrument='I1', seed=seed + 4, n=380, datatype='I'),
         'cells_volt.fcs': dict(kind='cells', instrument='I1', seed=seed + 5, n=500, datatype='I', volt=[500, 550, 999, 650]),
+        'cells_volt0.fcs': dict(kind='cells', instrument='I1', seed=seed + 11, n=500, datatype='I', volt=[500, 550, 0, 650]),
+        'cells_wide.fcs': dict(kind='cells', instrument='I1', seed=seed + 12, n=540, datatype='I', extra_first=True),
         'cells_lin.fcs': dict(kind='cells', instrument='I1', seed=seed + 6, n=500, datatype='I', amp='lin'),
         'cells_i2.fcs': dict(kind='cells', instrument='I2', seed=seed + 7, n=500, datatype='I'),
         'beads1.fcs': dict(kind='beads', instrument='I1', seed=seed + 8),
@@ -112,6 +114,10 @@ def sample_row(kind, sid):
         r.update(file='cells_lin.fcs')
     elif kind == 'other_volt':
         r.update(file='cells_volt.fcs')
+    elif kind == 'other_volt0':
+        r.update(file='cells_volt0.fcs')          # the calibrated channel's detector voltage is 0 (beads: 600)
+    elif kind == 'ok_mef_wide':
+        r.update(file='cells_wide.fcs', gate_fraction=0.6)   # same instrument and beads, but one more parameter in the file
     return r
 
 
